@@ -206,6 +206,21 @@ def update_fw_worker(analysis: Analysis, ctxspec) -> dict:
     return {"qual": m.qual, "ctx": ctx.name, "rows": rows}
 
 
+def session_retention(analysis: Analysis, res, rule: str) -> None:
+    """A request - answerable or not - never takes a scheduled node out of its session (shared with C09: blocks
+    can be requested in any order, any number of times)."""
+    last = analysis.versions[-1]
+    for summ in common.pmap(analysis, responder_worker, [(q, (last, "serial", "sync")) for q in SPEC]):
+        q, sp = summ["qual"], SPEC[summ["qual"]]
+        for r in summ["rows"]:
+            if r["kind"] == "raise" or not r["hit"]:
+                continue
+            last_move = max((m["idx"] for m in r["moves"]), default=None)
+            late = [p["store"] for p in r["pops"] if last_move is not None and p["idx"] > last_move]
+            ok_keep = len(r["moves"]) == 1 and not late
+            res.add(rule, f"{q} / a request never takes a scheduled node out of its session", ok_keep, "mysensors/ota.py", f"popped entry stored back into `{sp['target']}`" if ok_keep else ("the node's entry is popped from a session store and not stored back on this path: one unanswerable request ends the update" if not r["moves"] else f"the node is removed from {late} after being served: a repeated or out-of-order block request goes unanswered"), r["witness"] if not ok_keep else None, context=summ["ctx"])
+
+
 def zero_rules(analysis: Analysis, res: RuleResult, rule: str) -> None:
     """0 is a valid firmware type / version: it is served when scheduled and loaded, and a request naming it is
     not mistaken for "nothing requested" (shared by C10-R1 and C09-R1)."""
